@@ -108,8 +108,8 @@ let () =
            | Some i -> String.trim (String.sub line 0 i) | None -> String.trim line in
          let o = op_of_line optext in
          let (w1, r) = step !w o in
-         w := w1;
-         print_string optext; print_string " | "; print_endline (string_of_coq (render_step w1 r))
+         print_string optext; print_string " | "; print_endline (string_of_coq (render_step !w o w1 r));
+         w := w1
        end
      done
    with End_of_file -> ())
